@@ -45,13 +45,17 @@ def scoped(rule, name, *roots):
     return run
 
 
+def det3(name, *roots):
+    return scoped(D.rule_det3, "det3_" + name, *roots)
+
+
 DET1_ACCEPTED = {
     ("parser_utils._join_non_none", "iter:all_keys"):
         "inserts into a parameter dict (level L2) whose key order is unobservable: DET-1b checks that nothing iterates / serialises such dicts",
 }
 
 spec("C01", "Docstring round trip",
-     [TB.rule_table_style, N.rule_null2],
+     [TB.rule_table_style, N.rule_null2, det3("docstring", "emit.docstring", "docstring_parsers.parse_docstring")],
      "Necessary conditions decided on the source: (TABLE-style) per docstring style, every section header / line marker the emitter writes contains a "
      "detection token of that style, none of a style detected earlier, and is a header the style's scanner splits on; ARG/RETURN token tables are subsets of "
      "TOKENS. (NULL-2) the pending-parameter slot [None, {}] of the ReST parser cannot reach the name post-processing, which dereferences the name, without a "
@@ -61,7 +65,7 @@ spec("C01", "Docstring round trip",
      not_decided="IR equality after emit->parse (values); prose that itself contains a marker of another style; exceptions other than the definite None dereference")
 
 spec("C02", "Config-class round trip",
-     [named(O.rule_order, "rule_order_class", only=("emit.class_",)), TB.rule_table_cvar, scoped(FA.rule_falsy, "falsy_class", "emit.class_", "parse.class_")],
+     [named(O.rule_order, "rule_order_class", only=("emit.class_",)), TB.rule_table_cvar, scoped(FA.rule_falsy, "falsy_class", "emit.class_", "parse.class_"), det3("class", "emit.class_", "parse.class_")],
      "Necessary conditions: (ORDER) the class emitter produces exactly one attribute per parameter, in mapping order, never None, named by the parameter's key, with "
      "no filter/sort between the mapping and the attribute list; (TABLE-cvar) the ':cvar' marker and the reserved 'return_type' attribute written by the class "
      "emitter are exactly what the class and function parsers substitute / pop back.",
@@ -71,7 +75,7 @@ spec("C02", "Config-class round trip",
 
 spec("C03", "Function / method round trip",
      [named(O.rule_order, "rule_order_function", only=("emit.function",)), A.rule_align_emit, A.rule_align_parse, TB.rule_table_kind, N.rule_null1, N.rule_null2,
-      scoped(FA.rule_falsy, "falsy_function", "emit.function", "parse.function")],
+      scoped(FA.rule_falsy, "falsy_function", "emit.function", "parse.function"), det3("function", "emit.function", "parse.function")],
      "Necessary conditions: (ORDER) one argument per non-**kwargs parameter in order, named by the key, with the name-only **kwargs partition and its complement both "
      "consumed; (ALIGN-emit) defaults/kw_defaults are built one per argument from the same sequence (symbolic length identities over all paths); (ALIGN-parse) "
      "signature defaults are padded to exactly the argument count and keep their positions; (TABLE-kind) self/cls/static and the **kwargs suffix agree between "
@@ -82,7 +86,8 @@ spec("C03", "Function / method round trip",
 
 spec("C04", "argparse round trip",
      [named(O.rule_order, "rule_order_argparse", only=("emit.argparse_function",)), TB.rule_table_argparse,
-      scoped(FA.rule_falsy, "falsy_argparse", "emit.argparse_function", "parse.argparse_ast"), scoped(FA.rule_stripset, "stripset_argparse", "emit.argparse_function", "parse.argparse_ast")],
+      scoped(FA.rule_falsy, "falsy_argparse", "emit.argparse_function", "parse.argparse_ast"), scoped(FA.rule_stripset, "stripset_argparse", "emit.argparse_function", "parse.argparse_ast"),
+      det3("argparse", "emit.argparse_function", "parse.argparse_ast")],
      "Necessary conditions: (ORDER) exactly one add_argument call per parameter, in order, carrying '--<key>'; (TABLE-argparse) every keyword by which the emitter "
      "carries IR information is read by the parser, the '--' prefix added is the prefix stripped, the recogniser predicates test both receiver and attribute the "
      "emitter builds, written action constants are understood.",
@@ -91,7 +96,8 @@ spec("C04", "argparse round trip",
      not_decided="required/default/Optional interplay, choices quoting, numeric vs string defaults (value-level)")
 
 spec("C06", "Emitted code is valid Python",
-     [A.rule_align_emit, O.rule_order, CT.rule_ctor, scoped(FA.rule_falsy, "falsy_emit", "emit.class_", "emit.function", "emit.argparse_function")],
+     [A.rule_align_emit, O.rule_order, CT.rule_ctor, scoped(FA.rule_falsy, "falsy_emit", "emit.class_", "emit.function", "emit.argparse_function"),
+      det3("emit", "emit.class_", "emit.function", "emit.argparse_function", "emit.file"), F.rule_file5],
      "Necessary conditions, for all inputs: (ALIGN-emit) every ast.arguments(...) the package builds satisfies Python's length invariants and aligns defaults with "
      "arguments as symbolic identities; (ORDER) names/order/count of attributes, arguments and options are those of the IR by construction; (CTOR) every ast node "
      "construction supplies the mandatory _fields of the running interpreter.",
@@ -101,7 +107,7 @@ spec("C06", "Emitted code is valid Python",
 
 spec("C07", "Parsing faithful to Python's view",
      [lambda prog, rep, tier: D.rule_det1(prog, rep, tier, scope=prog.reachable([prog.fn("parse.function"), prog.fn("parse.class_")]), accepted=DET1_ACCEPTED),
-      A.rule_align_parse, O.rule_sigcover],
+      A.rule_align_parse, O.rule_sigcover, det3("parse", "parse.function", "parse.class_")],
      "Necessary conditions: (DET-1) on the parse path no iteration order of an unordered collection reaches the parameter mapping (order independent of run-to-run "
      "variation); (ALIGN-parse) signature defaults stay aligned with their arguments; (SIGCOVER) args, kwonlyargs and **kwarg each reach the result on some read that "
      "is not guarded by docstring-derived data.",
@@ -110,7 +116,8 @@ spec("C07", "Parsing faithful to Python's view",
      not_decided="that the order is the source order (documented-first is value-level), precedence of documented information, prose attribution, the inspect path")
 
 spec("C08", "Fixed point after one pass",
-     [TB.rule_table_announce, scoped(FA.rule_falsy, "falsy_defaults", "defaults_utils.set_default_doc", "defaults_utils.extract_default", "emitter_utils.interpolate_defaults")],
+     [TB.rule_table_announce, scoped(FA.rule_falsy, "falsy_defaults", "defaults_utils.set_default_doc", "defaults_utils.extract_default", "emitter_utils.interpolate_defaults"),
+      det3("all", "emit.docstring", "emit.class_", "emit.function", "emit.argparse_function", "parse.docstring", "parse.class_", "parse.function", "parse.argparse_ast")],
      "Necessary condition: (TABLE-announce b) each writer of the default sentence recognises its own sentence as 'already present' - either by calling the reader "
      "itself or by a substring of the written phrase - otherwise one more sentence is appended on every pass.",
      floors={"TABLE-announce": 3},
@@ -118,7 +125,7 @@ spec("C08", "Fixed point after one pass",
      not_decided="byte identity of the 2nd and 3rd emission in general (quote guards, indentation, wrapping are value-level)")
 
 spec("C09", "sync makes targets agree",
-     [C.rule_call_direct, C.rule_call_dispatch, C2.rule_cli2, V.rule_visit1, F.rule_file5, F.rule_file2c],
+     [C.rule_call_direct, C.rule_call_dispatch, C2.rule_cli2, V.rule_visit1, F.rule_file5, F.rule_file2c, det3("sync", "conformance.ground_truth")],
      "Necessary conditions: (CALL) every call through the sync dispatch table binds to its callee's signature for every table row and branch (create / append / replace), "
      "on top of 290+ directly resolved calls; (CLI-2) no accepted combination of the three kinds dereferences an option that was not given (192 abstract states); (VISIT-1) "
      "every visit_<T> override of the replacer replaces under the location predicate or delegates; (FILE-5) an appended definition starts on a new line; (FILE-2c) an "
@@ -128,7 +135,7 @@ spec("C09", "sync makes targets agree",
      not_decided="that the parsed targets equal the truth IR (values); method target absent from the file (a bare function is appended)")
 
 spec("C10", "sync idempotent / truth untouched / truthful report",
-     [F.rule_file0, F.rule_file1_truth, F.rule_file2, F.rule_file2b],
+     [F.rule_file0, F.rule_file1_truth, F.rule_file1b, F.rule_file2, F.rule_file2b, det3("sync", "conformance.ground_truth")],
      "Necessary conditions: (FILE-1) every call from the sync worker that can reach a write sink is guarded by a comparison of the target filename with the truth file; "
      "(FILE-2) on every enumerated path of _conform_filename the returned and printed changed-flag is true iff a write lies on the path; (FILE-2b) the in-place rewrite is "
      "control-dependent on an AST-inequality test.",
@@ -137,7 +144,7 @@ spec("C10", "sync idempotent / truth untouched / truthful report",
      not_decided="byte identity of a second run (needs emit.parse to be a fixed point: value-level); growth by repeated append when the lookup cannot find what was appended")
 
 spec("C11", "sync preserves the rest",
-     [named(M.rule_modf, "rule_modf_sync", workers=("conformance._conform_filename",)), F.rule_file5, V.rule_visit2, V.rule_visit6, V.rule_visit4],
+     [named(M.rule_modf, "rule_modf_sync", workers=("conformance._conform_filename",)), F.rule_file5, F.rule_file3, V.rule_visit2, V.rule_visit6, V.rule_visit4, det3("sync", "conformance.ground_truth")],
      "Necessary conditions: (MOD-F) between reading a target module and writing it back the only field-visible writes on the tree are the replacer's or identity-preserving "
      "re-listings, the reader's docstring re-indent being disabled at the call site; (FILE-5) appended text starts on a new line so the file still parses; (VISIT-2) at most "
      "one node is replaced; (VISIT-6) locations are compared by exact equality; (VISIT-4) locations are built inductively, so only the addressed node can match.",
@@ -156,7 +163,7 @@ spec("C12", "Deterministic output",
      not_decided="nothing structural is left out; trusted: determinism of ast, textwrap, black, yaml, json, pickle for the values they are given; objects with address-bearing repr are outside the input domain")
 
 spec("C13", "Non-interference through shared inputs",
-     [M.rule_mod1_2, M.rule_mod3],
+     [M.rule_mod1_2, M.rule_mod3, det3("all", "emit.docstring", "emit.class_", "emit.function", "emit.argparse_function", "parse.docstring", "parse.class_", "parse.function", "parse.argparse_ast")],
      "Decided by an alias/ownership abstraction of the dict IR (levels IR / params-returns / parameter dict / carried body): (MOD-1) no emitter changes the shape (keys, "
      "parameter set, order) of the IR it was given; (MOD-2) carried body nodes are not transformed in place; (MOD-5) no emit-path helper writes into a parameter dict "
      "of the caller's IR (every such write goes to an owned copy); (MOD-3) parsers write AST fields of their input only after rebinding it to a copy on every path.",
@@ -165,7 +172,7 @@ spec("C13", "Non-interference through shared inputs",
      not_decided="value-level effects of reads; helpers reached only through unresolved dynamic calls")
 
 spec("C14", "sync_properties changes exactly the addressed property",
-     [F.rule_file1_input, F.rule_file7, O.rule_pairs_all, named(M.rule_modf, "rule_modf_sync_properties", workers=("sync_properties.sync_properties",)), M.rule_modf2, CLI.rule_cli1],
+     [F.rule_file1_input, F.rule_file7, O.rule_pairs_all, named(M.rule_modf, "rule_modf_sync_properties", workers=("sync_properties.sync_properties",)), M.rule_modf2, CLI.rule_cli1, det3("sync_properties", "sync_properties.sync_properties")],
      "Necessary conditions: (FILE-1) no value derived from the input filename reaches the path of a write sink; (FILE-7) the single write of the output file comes after all "
      "pairs and every returning path after the transformer ran tests `.replaced` with a raising failing branch; (MOD-F) only the addressed node is field-mutated on the "
      "read->write path; (MOD-F2) the node taken from the input tree is copied before it is mutated/grafted; (CLI-1) CLI dests bind to the worker's signature.",
@@ -183,7 +190,7 @@ spec("C15", "Dotted locations",
      not_decided="full functional correctness of the resolver against an independent one")
 
 spec("C16", "Bodies carried verbatim",
-     [V.rule_visit5, TB.rule_table_argparse],
+     [V.rule_visit5, TB.rule_table_argparse, M.rule_mod1_2, det3("bodies", "emit.class_", "emit.function", "emit.argparse_function", "parse.class_", "parse.function", "parse.argparse_ast")],
      "Necessary conditions: (VISIT-5) the parameter->self.<parameter> renamer rewrites only names in its set, handles every scope-introducing node kind, and its set is exactly "
      "the IR's parameter names as given (computed before the return entry is folded in); (TABLE-argparse) the argparse recognisers pin down receiver and attribute, so only "
      "the emitter's own statements are treated as interface and every other statement stays in the carried body.",
@@ -192,7 +199,8 @@ spec("C16", "Bodies carried verbatim",
      not_decided="positional special cases of body splicing (slices of the runtime body list), trailing-return handling")
 
 spec("C17", "Defaults through prose",
-     [TB.rule_table_announce, scoped(FA.rule_falsy, "falsy_defaults", "defaults_utils.set_default_doc", "defaults_utils.extract_default", "emitter_utils.interpolate_defaults")],
+     [TB.rule_table_announce, scoped(FA.rule_falsy, "falsy_defaults", "defaults_utils.set_default_doc", "defaults_utils.extract_default", "emitter_utils.interpolate_defaults"),
+      det3("defaults", "defaults_utils.set_default_doc", "defaults_utils.extract_default", "emitter_utils.interpolate_defaults")],
      "Necessary conditions: (TABLE-announce a) the sentence the writer produces contains an announcement the reader looks for; (c) the docstring writer skips writing a default "
      "only when the prose contains something the reader would recognise as an announcement (decided by calling the reader itself, or by substrings that contain an announcement).",
      floors={"TABLE-announce": 3},
@@ -200,7 +208,7 @@ spec("C17", "Defaults through prose",
      not_decided="the numeric/boolean coercion ladder, end-of-value scan, removal leaving prose unchanged (character-level)")
 
 spec("C18", "Wrapping / line length transparent",
-     [T.rule_typeflow, T.rule_wrap_last],
+     [T.rule_typeflow, T.rule_wrap_last, det3("emit", "emit.docstring", "emit.class_", "emit.function", "emit.argparse_function")],
      "Necessary conditions: (TYPEFLOW) the configured width read from the environment passes int()/float() before every numeric sink (width= of textwrap, comparison with "
      "len()); (WRAP-LAST) no reader of prose (default-sentence scanner) is applied to an already word-wrapped string.",
      floors={"TYPEFLOW": 2, "WRAP-LAST": 5},
@@ -208,7 +216,7 @@ spec("C18", "Wrapping / line length transparent",
      not_decided="parse(wrapped) == parse(unwrapped) in general")
 
 spec("C19", "gen writes one definition per entry",
-     [C.rule_call_getattr, F.rule_file6, O.rule_allpair, O.rule_gen_layout, CLI.rule_cli1],
+     [C.rule_call_getattr, F.rule_file6, F.rule_file6b, O.rule_allpair, O.rule_gen_layout, CLI.rule_cli1, det3("gen", "gen.gen")],
      "Necessary conditions: (CALL) for each --type value the getattr(emit, ...) call binds to the selected emitter's signature; (FILE-6) the existing-output guard dominates "
      "the gen call with a no-return failing branch; (ALL-PAIR) __all__ is built from the list filled exactly once per mapping entry with the expression that names the "
      "emitted definition, after the definitions are joined; (CLI-1) gen's CLI dests bind to gen's signature.",
@@ -217,7 +225,7 @@ spec("C19", "gen writes one definition per entry",
      not_decided="that each definition describes its source object; import hoisting")
 
 spec("C20", "Rejected or failing invocations never damage files",
-     [F.rule_file6, CLI.rule_cli1, C2.rule_cli2, C.rule_call_dispatch, C.rule_call_getattr, F.rule_file3, F.rule_file4],
+     [F.rule_file6, F.rule_file6b, F.rule_file6c, CLI.rule_cli1, C2.rule_cli2, C.rule_call_dispatch, C.rule_call_getattr, F.rule_file3, F.rule_file4],
      "Necessary conditions: (FILE-6) every path of main() reaching a worker has established that worker's validations with a no-return failing branch; (CLI-1) dests bind to "
      "worker signatures; (CLI-2, CALL) no accepted argument combination ends in a None dereference or an unbindable call; (FILE-3) emit.file renders and formats before it "
      "opens the file; (FILE-4) a file that may exist is replaced atomically.",
